@@ -77,6 +77,22 @@ func sigObjectStable(sig *secp.Signature, hash []byte) string {
 			return strconv.FormatBool(sig.IsEqual(secp.NewSignature(&r, &s)))
 		}},
 	}
+	for _, g := range []struct {
+		name string
+		f    func() []byte
+	}{
+		{"Signature.Serialize", func() []byte { return sig.Serialize() }},
+		{"Signature.ExportCompact", func() []byte {
+			if code() == 0xff {
+				return nil
+			}
+			return sig.ExportCompact(true, 27)
+		}},
+	} {
+		if m := scribbleStable(g.name, g.f); m != "" {
+			return m
+		}
+	}
 	before := snap()
 	first := make([]string, len(obs))
 	for i, o := range obs {
@@ -133,6 +149,15 @@ func init() {
 			if m := sigObjectStable(sig, hash); m != "" {
 				return m
 			}
+			// PubKey() of the long-lived object follows its current scalar, and the object it returns is the caller's own
+			pk1 := reuseSignKey.PubKey()
+			if !pk1.IsEqual(key.PubKey()) {
+				return "PUBKEY-DEPENDS-ON-KEY-OBJECT-HISTORY"
+			}
+			*pk1 = *secp.NewPrivateKey(scalarFromHex("02")).PubKey() // scribble over what we were handed
+			if !reuseSignKey.PubKey().IsEqual(key.PubKey()) {
+				return "PUBKEY-RETURNS-SHARED-OBJECT"
+			}
 			// the crypto.Signer front end: the digest is signed as given, whatever hash the options name and
 			// whatever the (unused) entropy source does; only Format selects the encoding
 			for hf := crypto.Hash(0); hf < 20; hf++ {
@@ -160,7 +185,23 @@ func init() {
 		pub := pubFromXY(a[1], a[2])
 		sig := secp.NewSignature(scalarFromHex(a[3]), scalarFromHex(a[4]))
 		return withArgsCheck([][]byte{hash}, func() string {
-			if sig.Verify(hash, pub) {
+			ans := sig.Verify(hash, pub)
+			// the verdict is a function of (hash, Q, r, s): the same pair inside objects that carry any recovery code,
+			// or that BruteforceRecoveryCode has just been run on against another key, must get the same answer
+			for v := 0; v < 4; v++ {
+				o := secp.NewSignatureWithRecoveryCode(scalarFromHex(a[3]), scalarFromHex(a[4]), byte(v))
+				if o.Verify(hash, pub) != ans {
+					return "VERDICT-DEPENDS-ON-RECOVERY-CODE " + strconv.Itoa(v)
+				}
+			}
+			o := secp.NewSignature(scalarFromHex(a[3]), scalarFromHex(a[4]))
+			o.BruteforceRecoveryCode(hash, reuseSignKey.PubKey())
+			o.BruteforceRecoveryCode(hash, pub)
+			if o.Verify(hash, pub) != ans || sig.Verify(hash, pub) != ans {
+				return "VERDICT-DEPENDS-ON-OBJECT-HISTORY"
+			}
+			// a public key obtained from a long-lived private-key object equals the freshly derived one
+			if ans {
 				return "true"
 			}
 			return "false"
